@@ -663,6 +663,20 @@ def run(case, ctx):
     ctx.close(g2 * d, 2 * got * d, "linearity", rtol=0, atol=1e-12 * Rr + 1e-15 * dens * d)
     ctx.check(np.all(g0 == 0), "zero-radiance", "radiance 0 added something")
 
+    # (6a) the model that has served this window is asked for windows differing from it in ONE respect only (upper limit, lower limit,
+    # bin count): anything it remembered under a partial key shows against a model that has never been used (same arithmetic: bit-equal)
+    dw = wmax - wmin
+    for lo2, hi2, nb2 in ((wmin, wmax + 0.37 * dw, bins), (wmin - 0.21 * dw, wmax, bins), (wmin, wmax, bins + 3)):
+        if lo2 <= 0:
+            continue
+        with ctx.cut("add_line"):
+            g_used = add(b, case, Rr, lo2, hi2, nb2)
+            g_new = add(build(case), case, Rr, lo2, hi2, nb2)
+        ctx.check(np.array_equal(g_used, g_new), "window-one-respect",
+                  lambda: "window [%r, %r] x %d after [%r, %r] x %d on the same model: differs from a never-used model by %r (x bin width)"
+                  % (lo2, hi2, nb2, wmin, wmax, bins, float(np.max(np.abs(g_used - g_new)) * (hi2 - lo2) / nb2)))
+    ctx.label("window-one-respect")
+
     # (6b) the line is *added* to what the spectrum already holds
     if case["base"]:
         with ctx.cut("add_line"):
